@@ -11,3 +11,8 @@ import Helm.Props.C15
 import Helm.Props.C14
 import Helm.Props.C05
 import Helm.Props.C20
+import Helm.Props.C01
+import Helm.Props.C02
+import Helm.Props.C03
+import Helm.Props.C06
+import Helm.Props.C07
